@@ -27,21 +27,21 @@ import (
 // symbolic executor. Natively nothing here is used.
 func vStubs() map[string]interface{} {
 	return map[string]interface{}{
-		"google.golang.org/grpc/status.Errorf":                             stubStatusErrorf,
-		"google.golang.org/grpc/status.Error":                              stubStatusError,
-		"google.golang.org/grpc/status.Code":                               stubStatusCode,
-		"fmt.Errorf":                                                       stubFmtErrorf,
-		"github.com/syndtr/goleveldb/leveldb.Open":                         stubLdbOpen,
-		"github.com/syndtr/goleveldb/leveldb.OpenFile":                     stubLdbOpenFile,
-		"github.com/syndtr/goleveldb/leveldb/storage.NewMemStorage":        stubNewMemStorage,
-		"(*github.com/syndtr/goleveldb/leveldb.DB).Get":                    stubLdbGet,
-		"(*github.com/syndtr/goleveldb/leveldb.DB).Put":                    stubLdbPut,
-		"(*github.com/syndtr/goleveldb/leveldb.DB).Delete":                 stubLdbDelete,
-		"(*github.com/syndtr/goleveldb/leveldb.DB).Close":                  stubLdbClose,
-		"(*github.com/syndtr/goleveldb/leveldb.DB).NewIterator":            stubLdbNewIterator,
-		"math/rand.Float64":                                                stubRandFloat64,
-		"math/rand.Int31n":                                                 stubRandInt31n,
-		"math/rand.Intn":                                                   stubRandIntn,
+		"google.golang.org/grpc/status.Errorf":                      stubStatusErrorf,
+		"google.golang.org/grpc/status.Error":                       stubStatusError,
+		"google.golang.org/grpc/status.Code":                        stubStatusCode,
+		"fmt.Errorf":                                                stubFmtErrorf,
+		"github.com/syndtr/goleveldb/leveldb.Open":                  stubLdbOpen,
+		"github.com/syndtr/goleveldb/leveldb.OpenFile":              stubLdbOpenFile,
+		"github.com/syndtr/goleveldb/leveldb/storage.NewMemStorage": stubNewMemStorage,
+		"(*github.com/syndtr/goleveldb/leveldb.DB).Get":             stubLdbGet,
+		"(*github.com/syndtr/goleveldb/leveldb.DB).Put":             stubLdbPut,
+		"(*github.com/syndtr/goleveldb/leveldb.DB).Delete":          stubLdbDelete,
+		"(*github.com/syndtr/goleveldb/leveldb.DB).Close":           stubLdbClose,
+		"(*github.com/syndtr/goleveldb/leveldb.DB).NewIterator":     stubLdbNewIterator,
+		"math/rand.Float64":                                         stubRandFloat64,
+		"math/rand.Int31n":                                          stubRandInt31n,
+		"math/rand.Intn":                                            stubRandIntn,
 	}
 }
 
@@ -297,7 +297,7 @@ func (it *vIter) Prev() bool {
 	}
 	return it.pos >= 0
 }
-func (it *vIter) Valid() bool { return it.pos >= 0 && it.pos < len(it.kvs) }
+func (it *vIter) Valid() bool  { return it.pos >= 0 && it.pos < len(it.kvs) }
 func (it *vIter) Error() error { return nil }
 func (it *vIter) Key() []byte {
 	if !it.Valid() {
@@ -311,7 +311,7 @@ func (it *vIter) Value() []byte {
 	}
 	return it.kvs[it.pos].val
 }
-func (it *vIter) Release()                          {}
+func (it *vIter) Release()                           {}
 func (it *vIter) SetReleaser(releaser util.Releaser) {}
 
 // ---- server construction ----
